@@ -352,4 +352,74 @@ example : readMessage .fixed .load
 theorem load_ok_masks_error_cex : readMessage .pinned .load
     (replyDoc "rpc-reply" "101" [] [.results "load-configuration-results" [.err exErr, .ok]]) = .ok := by decide
 
+/-! ### a frame is ONE document: a second root element never yields a success
+
+`ServerMsg::from_xml` used to overwrite the reply it had read with a later `<rpc-reply>` of the same
+frame (D23): `<rpc-reply><rpc-error>…</rpc-error></rpc-reply><rpc-reply><ok/></rpc-reply>` was a
+success. With `RCfg.oneRoot` any further start tag after the first reply element is an unexpected
+event, whatever the first reply contained. -/
+
+theorem fromXmlReply_second_root (c : RCfg) (hc : c.oneRoot = true) (k : ReplyKind) (fuel : Nat)
+    (v : Nat × Body) (t : Tag) (rest : List Ev) :
+    fromXmlReply c k (fuel + 1) (some v) (.start t :: rest) = .error .unexpected := by
+  simp [fromXmlReply, hc]
+
+/-- every document of the reply grammar followed by a further start tag (a second `<rpc-reply>` in
+particular), for every reply kind: the caller gets an error — never `Ok`, never data -/
+theorem second_root_never_success (c : RCfg) (hc : c.oneRoot = true) (k : ReplyKind) (raw idAttr : String)
+    (extra : List AttrItem) (cs : List Top) (hwf : ∀ x ∈ cs, x.WF) (t2 : Tag) (rest : List Ev) :
+    ∃ e, readMessage c k
+      (.start (replyTag raw idAttr extra) :: (cs.flatMap Top.render ++ .end raw :: .start t2 :: rest)) = .err e := by
+  unfold readMessage
+  cases hp : readPartial c _ none _ with
+  | error e => exact ⟨e, rfl⟩
+  | ok id1 =>
+    simp only [phase2]
+    simp only [List.length_cons, List.length_append]
+    rw [fromXmlReply]
+    have hrt : (replyTag raw idAttr extra).is BASE "rpc-reply" = true := by simp [Tag.is, replyTag]
+    simp only [hrt, Option.isSome_none, Bool.and_false, Bool.not_false, Bool.and_true, if_true, readReplyElem]
+    have hga : getAttr "message-id" (replyTag raw idAttr extra).attrs
+        = .ok (some { key := "message-id", ns := .unbound, lname := "message-id", value := some idAttr }) := by
+      simp [getAttr, replyTag]
+    simp only [hga]
+    cases hpm : parseMessageId { key := "message-id", ns := .unbound, lname := "message-id", value := some idAttr } with
+    | error e => exact ⟨e, rfl⟩
+    | ok id =>
+      have hraw : (replyTag raw idAttr extra).raw = raw := rfl
+      have hlen : (cs.flatMap Top.render).length + 1
+          ≤ (cs.flatMap Top.render).length + (rest.length + 1 + 1) + 1 := by omega
+      have hfuel : (cs.flatMap Top.render).length + (rest.length + 1 + 1) + 1
+          = ((cs.flatMap Top.render).length + rest.length + 2) + 1 := by omega
+      cases k with
+      | empty =>
+        simp only [readBody, hraw, emptyLoop_refines cs hwf _ raw false [] (.start t2 :: rest) hlen]
+        cases emptyAbs false [] cs with
+        | error e => exact ⟨e, by simp [liftRest]⟩
+        | ok b => exact ⟨.unexpected, by simp only [liftRest]; rw [hfuel, fromXmlReply_second_root c hc]⟩
+      | data =>
+        simp only [readBody, hraw, dataLoop_refines cs hwf _ raw none [] (.start t2 :: rest) hlen]
+        cases dataAbs none [] cs with
+        | error e => exact ⟨e, by simp [liftRest]⟩
+        | ok b => exact ⟨.unexpected, by simp only [liftRest]; rw [hfuel, fromXmlReply_second_root c hc]⟩
+      | bare =>
+        simp only [readBody, hraw, bareLoop_refines cs hwf _ raw [] (.start t2 :: rest) hlen]
+        cases bareAbs [] cs with
+        | error e => exact ⟨e, by simp [liftRest]⟩
+        | ok b => exact ⟨.unexpected, by simp only [liftRest]; rw [hfuel, fromXmlReply_second_root c hc]⟩
+      | load =>
+        simp only [readBody, hraw, loadOuter_refines c cs hwf _ raw {} (.start t2 :: rest) hlen]
+        cases loadAbs c {} cs with
+        | error e => exact ⟨e, by simp [liftRest]⟩
+        | ok b => exact ⟨.unexpected, by simp only [liftRest]; rw [hfuel, fromXmlReply_second_root c hc]⟩
+
+/-- two reply elements in one frame, the first carrying an error, the second `<ok/>`: before the
+repair (`oneRoot := false`) the error was masked and the caller got `Ok`; now it is an error -/
+def exTwoReplies : List Ev :=
+  (replyDoc "rpc-reply" "101" [] [.err exErr]).dropLast ++ replyDoc "rpc-reply" "101" [] [.ok]
+
+theorem second_root_masks_error_cex :
+    readMessage { RCfg.fixed with oneRoot := false } .empty exTwoReplies = .ok
+    ∧ readMessage .fixed .empty exTwoReplies = .err .unexpected := by decide
+
 end Xml
